@@ -31,6 +31,7 @@ def run(ctx, rep):
     rep.section(m4, ctx, rep)
     rep.section(m6, ctx, rep)
     rep.section(m7, ctx, rep)
+    rep.section(m8, ctx, rep)
 
 
 def m0_stateful_iterator(f):
@@ -495,6 +496,47 @@ def m7(ctx, rep):
     rep.check(bool(rew) and all(rew), 'M7', 'reconcile_aliases:import-names-renamed', 'import names rewritten through the rename table, per imported crate', "reconcile_aliases leaves the names in `import_types` as written in the `use` items: for a type carrying serde(rename) the reference is renamed but the import still asks for the Rust name, which the defining module does not export — the import is dropped (TypeScript, Kotlin) and the renamed reference is left unresolved", site)
     put = [a for a in ra['assigns'] if vt.show(a.get('target')).replace(' ', '').endswith('.import_types')]
     rep.check(bool(put), 'M7', 'reconcile_aliases:imports-restored', 'import list handed on to generation', 'reconcile_aliases takes the import list of a crate and never puts it back: no imports are generated at all', site)
+
+
+def m8(ctx, rep):
+    """M8 (pending work is never thrown away): a traversal that keeps its pending nodes on a stack (`w.pop()` … `w.extend(children)`)
+    may *assign* the stack (`w = children.collect()`) only where the stack is known to be empty — after `w.pop()` returned None
+    (`if let Some(t) = w.pop() { .. return }` above it) or under `w.is_empty()`.  An assignment reached while nodes are still
+    pending drops them: `all_reference_type_names` then misses the siblings of a generic argument, their imports are discarded and
+    the generated module uses a type it does not import."""
+    n = 0
+    for f in ctx.astq['functions']:
+        if not f['file'].startswith('core/src/') or f['file'].endswith('topsort.rs'):
+            continue
+        pops = [c for c in f['calls'] if c.get('f') == 'pop' and c.get('recv') is not None]
+        if not pops:
+            continue
+        stacks = {vt.show(vt.strip(c['recv'])).replace(' ', '').lstrip('&').replace('mut', '') for c in pops}
+        for a in f['assigns']:
+            t = str(a.get('text', '')).replace(' ', '').lstrip('*')
+            if t not in stacks or a.get('op') != '=' or a.get('via'):
+                continue
+            n += 1
+
+            def empties(fr, w=t):
+                if fr.get('k') == 'arm':
+                    sc = vt.unvar(fr.get('scrut'))
+                    return (isinstance(sc, dict) and sc.get('k') == 'call' and sc.get('f') == 'pop' and fr.get('guard') is None
+                            and vt.show(vt.strip(sc.get('recv'))).replace(' ', '').lstrip('&').replace('mut', '') == w
+                            and [str(x).split('::')[-1] for x in fr.get('variants', [])] == ['None'])
+                c = vt.unvar(fr.get('c')) if fr.get('k') == 'if' else None
+                if isinstance(c, dict) and c.get('k') == 'iflet' and [str(x).split('::')[-1] for x in c.get('variants', [])] == ['Some']:
+                    sc = vt.unvar(c.get('scrut'))
+                    if isinstance(sc, dict) and sc.get('k') == 'call' and sc.get('f') == 'pop' and vt.show(vt.strip(sc.get('recv'))).replace(' ', '').lstrip('&').replace('mut', '') == w:
+                        return bool(fr.get('neg'))          # the branch / the code after the early exit where pop() gave None
+                if isinstance(c, dict) and c.get('k') == 'call' and c.get('f') == 'is_empty' and vt.show(vt.strip(c.get('recv'))).replace(' ', '') == w:
+                    return not fr.get('neg')
+                return False
+            ok = any(empties(fr) for fr in a.get('guard', []))
+            rep.check(ok, 'M8', f"{f['name']}:{t}:assigned-only-when-empty", 'the pending stack is overwritten only where it is empty', f"{f['qual']} assigns its pending stack `{t}` (`{vt.show(a.get('value'))[:60]}`) at a point where nodes popped earlier may still have pending siblings: they are dropped — for `HashMap<Key, Vec<Item>>` the traversal never yields `Key`, its import is discarded and the module uses a type it does not import", {'file': f['file'], 'line': a.get('line')})
+    rep.analysed['M8:worklist assignments judged'] = n
+    if n == 0:
+        rep.ok('M8', 'no-worklist-assignment', 'no traversal assigns a stack it also pops')
 
 
 def m5(ctx, rep):
